@@ -968,6 +968,31 @@ pub fn gen_case(rng: &mut Rng, wild_p: f64, trailing_p: f64) -> Case {
             strings.push(gen_string(rng, &a, &pieces, trailing_p));
         }
     }
+    // near-duplicates of earlier strings (one character appended to / removed from a word: a
+    // control character, the word's own last character, a letter): the same tokenizer sees words
+    // that agree on a prefix, which is what a cache keyed by a truncated or padded word confuses
+    if !strings.is_empty() && rng.random_bool(0.3) {
+        for _ in 0..rng.random_range(1..=3) {
+            let base = strings.choose(rng).cloned().unwrap_or_default();
+            let mut words: Vec<String> = base.split(' ').map(|w| w.to_string()).collect();
+            if let Some(w) = words.iter_mut().filter(|w| !w.is_empty()).last() {
+                match rng.random_range(0..5) {
+                    0 => w.push('\0'),
+                    1 => w.push('\u{1f}'),
+                    2 => {
+                        if let Some(ch) = w.chars().last() {
+                            w.push(ch);
+                        }
+                    }
+                    3 => {
+                        w.pop();
+                    }
+                    _ => w.push_str(a.letters.first().map(|s| s.as_str()).unwrap_or("a")),
+                }
+            }
+            strings.push(words.join(" "));
+        }
+    }
     strings.truncate(24);
     Case {
         table,
